@@ -6,12 +6,63 @@ from .. import q
 
 STORE = "_listeners"
 CACHE = "_sorted"
+SORTER = "_sort_listeners"
 
 
-def _is_invalidation(node, key_ok):
+_HELPERS = {}
+
+
+def _helper_invalidates(ctx, fi):
+    """a private method h(key) of the dispatcher that drops / rebuilds the cache entry of its parameter on every path"""
+    if fi.qualname in _HELPERS:
+        return _HELPERS[fi.qualname]
+    _HELPERS[fi.qualname] = False
+    prm = q.param_names(fi)
+    if not prm:
+        return False
+    k = prm[0]
+    cfg = ctx.cfg(fi)
+    good = set()
+    for cn in cfg.nodes:
+        if cn.kind in ("stmt", "return") and cn.ast is not None and _is_invalidation(cn.ast, lambda e: norm(e) == k):
+            good.add(cn.id)
+        if cn.kind in ("T", "F") and isinstance(cn.ast, ast.Compare) and len(cn.ast.ops) == 1 and is_self_attr(cn.ast.comparators[0], CACHE) and norm(cn.ast.left) == k:
+            op = cn.ast.ops[0]
+            if (isinstance(op, ast.In) and cn.kind == "F") or (isinstance(op, ast.NotIn) and cn.kind == "T"):
+                good.add(cn.id)
+    res = bool(good) and cfg.post_dominated_by(cfg.entry.id, good)
+    _HELPERS[fi.qualname] = res
+    return res
+
+
+def _helper_ensures(ctx, fi):
+    """a private method h(key) after which the cache entry of its parameter exists (built if it was missing)"""
+    prm = q.param_names(fi)
+    if not prm:
+        return False
+    k = prm[0]
+    cfg = ctx.cfg(fi)
+    good = set()
+    for cn in cfg.nodes:
+        if cn.kind == "stmt" and any(isinstance(c, ast.Call) and isinstance(c.func, ast.Attribute) and c.func.attr in ("_sort_listeners", SORTER) and c.args and norm(c.args[0]) == k
+                                     for c in walk_no_nested(cn.ast)):
+            good.add(cn.id)
+        if cn.kind in ("T", "F") and isinstance(cn.ast, ast.Compare) and len(cn.ast.ops) == 1 and is_self_attr(cn.ast.comparators[0], CACHE) and norm(cn.ast.left) == k:
+            op = cn.ast.ops[0]
+            if (isinstance(op, ast.In) and cn.kind == "T") or (isinstance(op, ast.NotIn) and cn.kind == "F"):
+                good.add(cn.id)
+    return bool(good) and cfg.post_dominated_by(cfg.entry.id, good)
+
+
+def _is_invalidation(node, key_ok, ctx=None, fi=None):
     """del self._sorted[k] / self._sorted.pop(k, ..) / self._sorted.clear() / self._sorted = {} /
-    self._sort_listeners(k)"""
+    self._sort_listeners(k) / a private helper doing one of these for its parameter"""
     for n in walk_no_nested(node):
+        if ctx is not None and isinstance(n, ast.Call) and isinstance(n.func, ast.Attribute) and isinstance(n.func.value, ast.Name) and n.func.value.id == "self" \
+                and n.args and key_ok(n.args[0]):
+            for t in ctx.cg.site_for(fi, n).targets:
+                if t.cls is not None and t.name.startswith("_") and _helper_invalidates(ctx, t):
+                    return True
         if isinstance(n, ast.Delete):
             for t in n.targets:
                 if isinstance(t, ast.Subscript) and is_self_attr(t.value, CACHE) and key_ok(t.slice):
@@ -21,7 +72,7 @@ def _is_invalidation(node, key_ok):
                 return True
             if n.func.attr == "clear" and is_self_attr(n.func.value, CACHE):
                 return True
-            if n.func.attr == "_sort_listeners" and n.args and key_ok(n.args[0]):
+            if n.func.attr in ("_sort_listeners", SORTER) and n.args and key_ok(n.args[0]):
                 return True
         if isinstance(n, ast.Assign):
             for t in n.targets:
@@ -42,7 +93,31 @@ def run(ctx):
             for t in n.targets:
                 if is_self_attr(t):
                     attrs.add(t.attr)
-    ctx.require(STORE in attrs and CACHE in attrs, "anchor attributes %s/%s not initialised in EventDispatcher.__init__" % (STORE, CACHE))
+    # the listener store = the attribute a registration appends its listener parameter into; the sorted
+    # cache = the other dict attribute, the one that is filled from the store (names are not assumed)
+    global STORE, CACHE
+    addm = methods.get("add_listener")
+    ctx.require(addm is not None, "EventDispatcher.add_listener missing")
+    lp = [x for x in q.param_names(addm) if "listener" in x] or q.param_names(addm)[1:2]
+    store = None
+    for c in q.calls(addm):
+        if isinstance(c.func, ast.Attribute) and c.func.attr in ("append", "insert", "add") and c.args and isinstance(c.args[-1], ast.Name) and c.args[-1].id in lp:
+            store = q.self_attr_root(c.func.value)
+    if store is None:
+        for c in q.calls(addm):
+            if isinstance(c.func, ast.Attribute) and c.func.attr == "setdefault" and q.self_attr_root(c.func.value):
+                store = q.self_attr_root(c.func.value)
+    ctx.require(store in attrs, "cannot find the listener store (attribute the listener is appended to in add_listener)")
+    cache = None
+    for m in methods.values():
+        own_reads = {n.attr for n in walk_no_nested(m.node) if is_self_attr(n)}
+        if store in own_reads:
+            for node, kind, t in [w for a in attrs - {store} for w in q.writes_to_self_attr(m, a)]:
+                if kind in ("substore", "mutcall") and any(isinstance(x, ast.Call) and isinstance(x.func, ast.Name) and x.func.id == "sorted" for x in walk_no_nested(m.node)) or \
+                        any(isinstance(x, ast.Attribute) and x.attr == "sort" for x in walk_no_nested(m.node)):
+                    cache = q.self_attr_root(t) or (t.attr if is_self_attr(t) else None)
+    ctx.require(cache in attrs and cache != store, "cannot find the sorted-listener cache (attribute filled from the store by a sort)")
+    STORE, CACHE = store, cache
 
     # ---------------------------------------------------------------- R1
     r = ctx.rule("C12-R1", "INVALID",
@@ -74,7 +149,7 @@ def run(ctx):
             ctx.require(wnodes, "no CFG node for write %s" % norm(node))
             inval = set()
             for cn in cfg.nodes:
-                if cn.kind in ("stmt", "return") and cn.ast is not None and _is_invalidation(cn.ast, key_ok):
+                if cn.kind in ("stmt", "return") and cn.ast is not None and _is_invalidation(cn.ast, key_ok, ctx, m):
                     inval.add(cn.id)
                 # 'k in self._sorted' false edge / 'k not in self._sorted' true edge: nothing cached
                 if cn.kind in ("T", "F") and isinstance(cn.ast, ast.Compare) and len(cn.ast.ops) == 1:
@@ -95,9 +170,20 @@ def run(ctx):
     # ---------------------------------------------------------------- R2
     r = ctx.rule("C12-R2", "POLARITY",
                  "registration appends, the sort is descending in priority only (stable), iteration is forward", reference=6)
+    global SORTER
     add = methods.get("add_listener")
     sort = methods.get("_sort_listeners")
+    if sort is None:
+        for m_ in methods.values():
+            if q.writes_to_self_attr(m_, CACHE) and any(isinstance(x, ast.Call) and isinstance(x.func, ast.Name) and x.func.id == "sorted" for x in walk_no_nested(m_.node)):
+                sort = m_
+    if sort is not None:
+        SORTER = sort.name
     disp = methods.get("_do_dispatch")
+    if disp is None:
+        for m_ in methods.values():
+            if any(cs.kind in ("dynamic",) and isinstance(cs.node.func, ast.Name) for cs in ctx.cg.sites_in(m_)) and any(isinstance(n, ast.For) for n in walk_no_nested(m_.node)):
+                disp = m_
     ctx.require(add and sort and disp, "add_listener/_sort_listeners/_do_dispatch missing")
     for m in (add, sort):
         for c in q.calls(m):
@@ -259,9 +345,14 @@ def run(ctx):
                     if (isinstance(op, ast.In) and cn.kind == "T") or (isinstance(op, ast.NotIn) and cn.kind == "F"):
                         good.add(cn.id)
                 if cn.kind == "stmt" and any(
-                        isinstance(c, ast.Call) and isinstance(c.func, ast.Attribute) and c.func.attr == "_sort_listeners"
+                        isinstance(c, ast.Call) and isinstance(c.func, ast.Attribute) and c.func.attr in ("_sort_listeners", SORTER)
                         and c.args and norm(c.args[0]) == key_txt for c in walk_no_nested(cn.ast)):
                     good.add(cn.id)
+                if cn.kind == "stmt":
+                    for c in walk_no_nested(cn.ast):
+                        if isinstance(c, ast.Call) and isinstance(c.func, ast.Attribute) and isinstance(c.func.value, ast.Name) and c.func.value.id == "self" and c.args and norm(c.args[0]) == key_txt:
+                            if any(t.name.startswith("_") and _helper_ensures(ctx, t) for t in ctx.cg.site_for(gl, c).targets):
+                                good.add(cn.id)  # a helper that makes sure the entry is (re)built
             if good and all(cfg.all_paths_hit(cfg.entry.id, good, [rn.id])for _ in [0]):
                 r.ok("%s: %s" % (gl.short, norm(ret)))
             else:
